@@ -826,6 +826,69 @@ func ruleFinalizerDiscipline() check.Rule {
 			} else {
 				c.Violation(key+"/once", fd.Pos(), "Unsubscribe does not (test done and return early=%v, set done=%v): finalizers could run twice", earlyDone, setsDone)
 			}
+			// the loop may live in a helper the list is handed to (runFinalizers(finalizers)): the loop is the helper's,
+			// the list is the argument, and the locks that matter are those held at the call
+			var lockProbe ast.Node
+			if loop == nil {
+				ast.Inspect(fd.Body, func(n ast.Node) bool {
+					call, ok := n.(*ast.CallExpr)
+					if !ok || loop != nil {
+						return loop == nil
+					}
+					cl := model.Callee(info, call)
+					d := m.Decls[cl]
+					if cl == nil || d == nil || d.Decl.Body == nil || d.Pkg != p {
+						return true
+					}
+					params := model.FlattenParams(info, d.Decl.Type.Params)
+					for ai, a := range call.Args {
+						aid, _ := rootIdent(a)
+						if aid == nil || ai >= len(params) || params[ai] == nil {
+							continue
+						}
+						if _, isSlice := params[ai].Type().Underlying().(*types.Slice); !isSlice {
+							continue
+						}
+						ast.Inspect(d.Decl.Body, func(y ast.Node) bool {
+							if loop != nil {
+								return false
+							}
+							switch x := y.(type) {
+							case *ast.RangeStmt:
+								if id, _ := rootIdent(x.X); id != nil && objOf(info, id) == types.Object(params[ai]) {
+									loop = &finalizerLoop{Stmt: x, Body: x.Body, Forward: true}
+								}
+							case *ast.ForStmt:
+								uses := false
+								for _, part := range []ast.Node{x.Init, x.Cond} {
+									if part == nil {
+										continue
+									}
+									ast.Inspect(part, func(z ast.Node) bool {
+										if id, ok := z.(*ast.Ident); ok && objOf(info, id) == types.Object(params[ai]) {
+											uses = true
+										}
+										return true
+									})
+								}
+								if uses {
+									fl := &finalizerLoop{Stmt: x, Body: x.Body, Forward: true}
+									if post, ok := x.Post.(*ast.IncDecStmt); ok && post.Tok == token.DEC {
+										fl.Forward = false
+									}
+									loop = fl
+								}
+							}
+							return true
+						})
+						if loop != nil {
+							loopVar = objOf(info, aid)
+							lockProbe = call
+						}
+					}
+					return true
+				})
+			}
 			if loop == nil {
 				c.Violation(key+"/loop", fd.Pos(), "no loop over the finalizers found")
 				return
@@ -878,7 +941,10 @@ func ruleFinalizerDiscipline() check.Rule {
 			} else {
 				c.Violation(key+"/local-copy", loop.Pos(), "the finalizer loop does not iterate a local copy taken under the mutex: a concurrent Add/Unsubscribe can race with it or run finalizers twice")
 			}
-			if held := h.heldNorm(p, loop.Body); len(held) > 0 {
+			if lockProbe == nil {
+				lockProbe = loop.Body
+			}
+			if held := h.heldNorm(p, lockProbe); len(held) > 0 {
 				c.Violation(key+"/outside-lock", loop.Pos(), "finalizers run while %s is held: a teardown that calls IsClosed/Add on the same subscription deadlocks", held)
 			} else {
 				c.OK(key+"/outside-lock", loop.Pos(), "finalizers run outside the mutex")
@@ -909,10 +975,23 @@ func ruleFinalizerDiscipline() check.Rule {
 			}
 			// panic only after the loop
 			panicOK := true
+			// where the loop ends in this function: the loop itself, or the call of the helper that contains it
+			loopEnd := loop.End()
+			if !(fd.Body.Pos() <= loop.Pos() && loop.End() <= fd.Body.End()) {
+				loopEnd = lockProbe.End()
+				ast.Inspect(loop.Body, func(n ast.Node) bool {
+					if call, ok := n.(*ast.CallExpr); ok {
+						if id, ok := call.Fun.(*ast.Ident); ok && id.Name == "panic" {
+							panicOK = false
+						}
+					}
+					return true
+				})
+			}
 			ast.Inspect(fd.Body, func(n ast.Node) bool {
 				if call, ok := n.(*ast.CallExpr); ok {
 					if id, ok := call.Fun.(*ast.Ident); ok && id.Name == "panic" {
-						if call.Pos() < loop.End() {
+						if call.Pos() < loopEnd {
 							panicOK = false
 						}
 					}
